@@ -224,7 +224,11 @@ func (s *socket) onPacket(data *packet.Packet) {
 			return
 		}
 		socket_log.Debug("got ping")
-		s.pingTimeoutTimer.Load().Refresh()
+		// a ping can arrive before onOpen has armed the deadline (the transport's reader is
+		// already running while the open packet is being flushed): onOpen arms it in full
+		if timer := s.pingTimeoutTimer.Load(); timer != nil {
+			timer.Refresh()
+		}
 		s.sendPacket(packet.PONG, nil, nil, nil)
 		s.Emit("heartbeat")
 	case packet.PONG:
@@ -234,7 +238,11 @@ func (s *socket) onPacket(data *packet.Packet) {
 		}
 		socket_log.Debug("got pong")
 		utils.ClearTimeout(s.pingTimeoutTimer.Load())
-		s.pingIntervalTimer.Load().Refresh()
+		// a pong sent right after the open packet can arrive before onOpen has scheduled the
+		// first ping: there is nothing to refresh yet
+		if timer := s.pingIntervalTimer.Load(); timer != nil {
+			timer.Refresh()
+		}
 		s.Emit("heartbeat")
 	case packet.ERROR:
 		s.OnClose("parse error")
